@@ -37,7 +37,7 @@ KINDS = sim_shm.C09_KINDS
 
 
 def correspond(ctx):
-    n = ctx.budget(260, 9000)
+    n = ctx.budget(260, 6000)
     sim_shm.run_batch(ctx, KINDS, "c09", n, ctx.budget(80, 120), ctx.budget(5, 6), "C09_*.json")
 
 
